@@ -5,6 +5,21 @@ ROOT = "/verif"
 ALL = ["C%02d" % i for i in range(1, 21)]
 
 CHECKS = {
+ "C01": dict(
+   engine="E-prod bounded product enumerator (mc/src/c01.rs, aead.rs)", cat="exploration", ref="DESIGN.md §3 C01",
+   technique="bounded exhaustive enumeration of the structural input space (every encrypt/open form x container x key/nonce alphabet x every message length up to the bound x content class), each case executed on the real code and compared byte-for-byte with libsodium",
+   text="Every cell of the product forms x key sets x lengths 0..=600 (+page/KiB boundaries; thorough 0..=4100 + up to 1 MiB) x 4 contents is encrypted by dryoc and libsodium and compared; every open form opens every libsodium ciphertext; libsodium opens dryoc's; sealed boxes are compared exactly under a pinned ephemeral key and cross-opened with the real RNG.",
+   note="Trusted: libsodium 1.0.18; RNG seam H3. Byte values outside the alphabets are not covered (the ciphers are third-party crates; dryoc's own logic is length/offset/plumbing, covered completely up to the bound)."),
+ "C02": dict(
+   engine="E-fault single-fault enumerator (mc/src/c02.rs)", cat="fault_enumeration", ref="DESIGN.md §3 C02",
+   technique="exhaustive single-fault enumeration: every bit flip of every wire/nonce/key/header/AD component, every truncation, a stated extension family, for every base length, through every open form; verdict cross-checked with libsodium",
+   text="For each base case (4 families x lengths 0..=130 (300 thorough)) every member of the fault family is applied once and given to all open forms (21 AEAD + 2 stream); the control must be accepted with the original message and every fault rejected with Err (panic = violation).",
+   note="Trusted: libsodium's verdict on the same faulty input guards the harness. Box pk/sk bits are not flipped (clamped bits are no-ops); 2^-128 residual for key flips."),
+ "C17": dict(
+   engine="E-fault single-fault enumerator with buffer oracle (mc/src/c02.rs, mode leak)", cat="fault_enumeration", ref="DESIGN.md §3 C17",
+   technique="the C02 fault enumeration with a different oracle: after every failed open the caller-owned message buffer (sentinel-prefilled, or the submitted ciphertext for in-place forms) and the stream tag variable must be unchanged or all zero",
+   text="Same executions as C02 (every fault x every form); buffer and tag contents before/after each failing call are compared byte by byte.",
+   note="Object-API forms own their buffers and can only return Err (checked as 'err-no-buffer')."),
  "C03": dict(
    engine="E-state (stateright 0.31) + E-prod sweep", cat="model_checking", ref="DESIGN.md §3 C03",
    technique="explicit-state model checking of the real push/pull/rekey code with stateright (BFS/DFS over all action histories up to a depth bound) in lockstep with libsodium, plus exhaustive length/AD/tag product sweep",
